@@ -148,6 +148,54 @@ def _normalise_idioms(d):
                               "trait": "core::convert::TryInto", "self_ty": src, "was_try_from": True})
 
 
+def _single_impl_traits(d):
+    """A crate-private trait with exactly one impl (util::ValueTryAs for Value): a provided method of the trait that the impl does
+    not override IS that impl's method (`Self` can only be the one type).  Its body is filed under the impl's name and calls of
+    trait methods made on `Self` inside provided bodies are resolved to the impl - so moving a method from the impl block into the
+    trait (or back) changes nothing for the rules."""
+    if d.get("_single_impl_done"):
+        return
+    d["_single_impl_done"] = True
+    by_trait = {}
+    for imp in d.get("impls", []):
+        if imp.get("trait") in d.get("traits", {}):
+            by_trait.setdefault(imp["trait"], []).append(imp)
+    alias = {}
+    for tr, imps in by_trait.items():
+        if len(imps) != 1:
+            continue
+        vis = [f.get("vis", "") for k, f in d["fns"].items() if f.get("impl_trait") == tr or f.get("trait_default_of") == tr]
+        if not vis or not all(v.startswith("Restricted(") for v in vis):
+            continue            # a public trait can be implemented elsewhere
+        imp = imps[0]
+        sty = imp["self_ty"]
+        own = {i["name"] for i in imp["items"] if i["kind"] == "Fn"}
+        for item in d["traits"][tr].get("items", []):
+            if item.get("kind") != "Fn":
+                continue
+            m = item["name"]
+            tkey, ikey = "%s::%s" % (tr, m), "<%s as %s>::%s" % (sty, tr, m)
+            if m in own and ikey in d["fns"]:
+                alias[tkey] = ikey
+            elif item.get("has_default") and tkey in d["fns"] and ikey not in d["fns"]:
+                f = d["fns"].pop(tkey)
+                f.update({"path": ikey, "impl_self_ty": sty, "impl_self_adt": sty, "impl_trait": tr, "was_trait_default": tr})
+                f.pop("trait_default_of", None)
+                d["fns"][ikey] = f
+                alias[tkey] = ikey
+    if not alias:
+        return
+    for f in d["fns"].values():
+        for body in [f] + list(f.get("promoted") or []):
+            for b in body.get("blocks") or []:
+                t = b["term"]
+                c = t.get("callee") if t.get("k") == "call" else None
+                if c and c.get("path") in alias:
+                    r = c.get("resolved") or {}
+                    if not r or r.get("path") == c["path"]:
+                        c["resolved"] = {"path": alias[c["path"]], "args": [], "full": alias[c["path"]], "local": True, "kind": "Item"}
+
+
 class Program:
     def __init__(self, path, expect_nonce=None, inline=True, data=None, flatten=True):
         if data is not None:
@@ -175,6 +223,7 @@ class Program:
             raise FactsError("stale fact file: nonce %r != expected %r" % (self.meta.get("nonce"), expect_nonce))
         self.path = path
         _normalise_idioms(self.d)
+        _single_impl_traits(self.d)
         self.fns = {k: Fn(k, v, self) for k, v in self.d["fns"].items()}
         self.adts = self.d["adts"]
         self.traits = self.d["traits"]
@@ -216,6 +265,12 @@ class Program:
             for imp in self.impls:
                 if imp.get("trait") == f.trait_default_of and any(i["kind"] == "Fn" and i["name"] == name for i in imp["items"]):
                     return False
+            return True
+        if f.impl_trait == "core::convert::From" and f.d.get("impl_self_ty") != "common::CoseError" and self.inline_mode != "none" \
+                and not f.d.get("generic") and key not in NEVER_INLINE:
+            # a crate-local conversion (`impl From<Header> for ProtectedHeader`, `impl From<Label> for Value`) called where rustc
+            # resolved the call to it: the literal / match it contains, written at the call site (the error conversions of
+            # CoseError are known to the rules by name and stay calls)
             return True
         if f.impl_trait:
             # a method of a crate-PRIVATE trait (util::ValueTryAs) that the rules do not know by name is a helper like any
